@@ -13,6 +13,7 @@
 //   end
 #include <csetjmp>
 #include <csignal>
+#include <exception>
 #include <cstdint>
 #include <cstdio>
 #include <cstdlib>
@@ -103,6 +104,14 @@ static void on_signal(int sig)
   _exit(0);
 }
 
+// std::terminate (an exception meeting a noexcept boundary, or escaping the kernel) ends the process like an abort
+static void on_terminate()
+{
+  printf("status abort std::terminate\n");
+  fflush(stdout);
+  _exit(0);
+}
+
 typedef uint64_t (*kfn)(uint64_t, uint64_t, uint64_t, uint64_t, uint64_t, uint64_t, uint64_t, uint64_t, uint64_t, uint64_t, uint64_t, uint64_t,
                         uint64_t, uint64_t, uint64_t, uint64_t);
 
@@ -113,6 +122,7 @@ static void run_case(const std::vector<std::string>& lines)
   signal(SIGFPE, on_signal);
   signal(SIGILL, on_signal);
   signal(SIGABRT, on_signal);
+  std::set_terminate(on_terminate);
   bool called = false;
   for (const auto& ln : lines) {
     std::vector<std::string> tok;
